@@ -204,7 +204,6 @@ func rawList(xs []pdf.Object) string {
 	return sb.String()
 }
 
-
 // ---------------------------------------------------------------------------
 // operators
 
@@ -772,7 +771,6 @@ func (h *harness) rreal() pdf.Real {
 	}
 }
 
-
 func (h *harness) robj(depth int) pdf.Object {
 	r := h.e.Rand
 	k := r.IntN(13)
@@ -963,7 +961,6 @@ var corpusTexts = []string{
 	"{ x } y", "a{b}c", ") x", "> x", "< x", "'", "\"", "(a)'", "1 2 (a)\"", "T* Tj", "f* B* b*", "W* n", "d0 d1",
 	"\x00q\x00", "q\tQ\fq\rQ", "q\x80", "\xffq",
 }
-
 
 func (h *harness) mutate(t []byte, pool [][]byte) []byte {
 	r := h.e.Rand
@@ -1170,135 +1167,247 @@ func (h *harness) rnames(n int) []content.OpName {
 	return res
 }
 
-// builderCase: a random sequence of Builder calls.
-func (h *harness) builderCase() {
+// bcall performs one Builder call (a panic is recorded as the Builder's error).
+func (h *harness) bcall(b *builder.Builder, k int) {
 	r := h.e.Rand
-	v := pdf.V2_0
-	if r.IntN(2) == 0 {
-		v = pdf.V1_7
+	defer func() {
+		if rec := recover(); rec != nil && b.Err == nil {
+			b.Err = fmt.Errorf("panic: %v", rec)
+		}
+	}()
+	switch k {
+	case 0, 1:
+		b.PushGraphicsState()
+	case 2, 3:
+		b.PopGraphicsState()
+	case 4:
+		b.TextBegin()
+	case 5:
+		b.TextEnd()
+	case 6:
+		b.MarkedContentStart(&graphics.MarkedContent{Tag: pdf.Name("Span")})
+	case 7:
+		b.MarkedContentEnd()
+	case 8:
+		b.MoveTo(float64(r.IntN(100)), float64(r.IntN(100))/4)
+	case 9:
+		b.LineTo(float64(r.IntN(100)), float64(r.IntN(100))/3)
+	case 10:
+		b.Rectangle(1, 2, 30.5, 40)
+	case 11:
+		b.ClosePath()
+	case 12:
+		b.Stroke()
+	case 13:
+		b.Fill()
+	case 14:
+		b.EndPath()
+	case 15:
+		b.ClipNonZero()
+	case 16:
+		b.SetLineWidth(float64(r.IntN(50)) / 7)
+	case 17:
+		b.TextFirstLine(float64(r.IntN(100)), -12.5)
+	case 18:
+		b.MarkedContentPoint(&graphics.MarkedContent{Tag: pdf.Name("P#1")})
+	case 19:
+		b.TextShowRaw(pdf.String(h.rbytes(6)))
+	case 20:
+		b.SetLineCap(graphics.LineCapStyle(r.IntN(3)))
+	case 21:
+		b.SetLineJoin(graphics.LineJoinStyle(r.IntN(3)))
+	case 22:
+		b.SetMiterLimit(1 + float64(r.IntN(90))/9)
+	case 23:
+		b.SetLineDash([]float64{float64(r.IntN(5)), 1.5}, float64(r.IntN(3)))
+	case 24:
+		b.Transform(matrix.Translate(float64(r.IntN(100))/3, -7.25))
+	case 25:
+		b.SetFillColor(color.DeviceGray(float64(r.IntN(11)) / 10))
+	case 26:
+		b.CurveTo(1, 2.5, 3.25, 4, float64(r.IntN(50))/7, 6)
+	case 27:
+		b.CloseAndStroke()
+	case 28:
+		b.FillAndStroke()
+	case 29:
+		b.ClipEvenOdd()
+	case 30:
+		b.SetStrokeColor(color.DeviceRGB{0.1, float64(r.IntN(11)) / 10, 1})
+	case 31:
+		b.Circle(10, 20.5, float64(1+r.IntN(30))/3)
+	case 32:
+		b.FillAndStrokeEvenOdd()
+	case 33:
+		b.TextSecondLine(float64(r.IntN(20)), -14.4)
+	case 37:
+		for i := 0; i < 29; i++ {
+			b.PushGraphicsState()
+		}
+	case 38:
+		for i := 0; i < 28; i++ {
+			b.PushGraphicsState()
+		}
+	case 34:
+		data := []byte(imgData[r.IntN(len(imgData))])
+		if r.IntN(2) == 0 {
+			data = h.rbytes(20)
+		}
+		b.DrawInlineImageRaw(pdf.Dict{"W": pdf.Integer(1 + r.IntN(4)), "H": pdf.Integer(2), "BPC": pdf.Integer(8)}, data)
 	}
-	b := builder.New(content.Page, nil, v)
-	n := 1 + r.IntN(14)
-	var calls []string
-	for i := 0; i < n; i++ {
-		k := r.IntN(35)
-		if r.IntN(8) > 0 {
-			// mostly calls the current state accepts
-			hasQ, hasM := false, false
-			for _, c := range b.State.ClosingOperators() {
-				hasQ = hasQ || c == content.OpPopGraphicsState
-				hasM = hasM || c == content.OpEndMarkedContent
+}
+
+// closeAll issues the Builder calls that close what is open (for Build, whose function must
+// leave a closable state).
+func (h *harness) closeAll(b *builder.Builder) {
+	for _, c := range b.State.ClosingOperators() {
+		switch c {
+		case content.OpEndPath:
+			b.EndPath()
+		case content.OpPopGraphicsState:
+			b.PopGraphicsState()
+		case content.OpTextEnd:
+			b.TextEnd()
+		case content.OpEndMarkedContent:
+			b.MarkedContentEnd()
+		}
+	}
+}
+
+// pickCall chooses a Builder call: mostly one the current state accepts; in probing mode
+// often one that the rules of the PDF version forbid (q inside a text object, deep q nesting).
+func (h *harness) pickCall(b *builder.Builder, v pdf.Version, probing bool) int {
+	r := h.e.Rand
+	k := r.IntN(35)
+	if probing && r.IntN(3) == 0 {
+		return []int{0, 0, 2, 37, 38, 4}[r.IntN(6)]
+	}
+	if r.IntN(8) > 0 {
+		hasQ, hasM := false, false
+		for _, c := range b.State.ClosingOperators() {
+			hasQ = hasQ || c == content.OpPopGraphicsState
+			hasM = hasM || c == content.OpEndMarkedContent
+		}
+		var opts []int
+		switch b.State.CurrentObject {
+		case content.ObjPage:
+			opts = []int{0, 1, 4, 6, 8, 10, 16, 18, 20, 21, 22, 23, 24, 25, 30, 31, 34, 34}
+			if hasQ {
+				opts = append(opts, 2, 3)
 			}
-			var opts []int
-			switch b.State.CurrentObject {
-			case content.ObjPage:
-				opts = []int{0, 1, 4, 6, 8, 10, 16, 18, 20, 21, 22, 23, 24, 25, 30, 31, 34, 34}
+			if hasM {
+				opts = append(opts, 7)
+			}
+		case content.ObjPath:
+			opts = []int{8, 9, 9, 10, 11, 12, 13, 14, 15, 26, 27, 28, 29, 32}
+		case content.ObjClippingPath:
+			opts = []int{12, 13, 14}
+		case content.ObjText:
+			opts = []int{5, 5, 6, 17, 17, 18, 20, 25, 33, 30}
+			if hasM {
+				opts = append(opts, 7)
+			}
+			if v >= pdf.V2_0 {
+				opts = append(opts, 0)
 				if hasQ {
-					opts = append(opts, 2, 3)
+					opts = append(opts, 2)
 				}
-				if hasM {
-					opts = append(opts, 7)
-				}
-			case content.ObjPath:
-				opts = []int{8, 9, 9, 10, 11, 12, 13, 14, 15, 26, 27, 28, 29, 32}
-			case content.ObjClippingPath:
-				opts = []int{12, 13, 14}
-			case content.ObjText:
-				opts = []int{5, 5, 6, 17, 17, 18, 20, 25, 33, 30}
-				if hasM {
-					opts = append(opts, 7)
-				}
-				if v >= pdf.V2_0 {
-					opts = append(opts, 0)
-					if hasQ {
-						opts = append(opts, 2)
-					}
-				}
-			}
-			if len(opts) > 0 {
-				k = opts[r.IntN(len(opts))]
 			}
 		}
-		calls = append(calls, strconv.Itoa(k))
-		func() {
-			defer func() {
-				if rec := recover(); rec != nil && b.Err == nil {
-					b.Err = fmt.Errorf("panic: %v", rec)
-				}
-			}()
-			switch k {
-			case 0, 1:
-				b.PushGraphicsState()
-			case 2, 3:
-				b.PopGraphicsState()
-			case 4:
-				b.TextBegin()
-			case 5:
-				b.TextEnd()
-			case 6:
-				b.MarkedContentStart(&graphics.MarkedContent{Tag: pdf.Name("Span")})
-			case 7:
-				b.MarkedContentEnd()
-			case 8:
-				b.MoveTo(float64(r.IntN(100)), float64(r.IntN(100))/4)
-			case 9:
-				b.LineTo(float64(r.IntN(100)), float64(r.IntN(100))/3)
-			case 10:
-				b.Rectangle(1, 2, 30.5, 40)
-			case 11:
-				b.ClosePath()
-			case 12:
-				b.Stroke()
-			case 13:
-				b.Fill()
-			case 14:
-				b.EndPath()
-			case 15:
-				b.ClipNonZero()
-			case 16:
-				b.SetLineWidth(float64(r.IntN(50)) / 7)
-			case 17:
-				b.TextFirstLine(float64(r.IntN(100)), -12.5)
-			case 18:
-				b.MarkedContentPoint(&graphics.MarkedContent{Tag: pdf.Name("P#1")})
-			case 19:
-				b.TextShowRaw(pdf.String(h.rbytes(6)))
-			case 20:
-				b.SetLineCap(graphics.LineCapStyle(r.IntN(3)))
-			case 21:
-				b.SetLineJoin(graphics.LineJoinStyle(r.IntN(3)))
-			case 22:
-				b.SetMiterLimit(1 + float64(r.IntN(90))/9)
-			case 23:
-				b.SetLineDash([]float64{float64(r.IntN(5)), 1.5}, float64(r.IntN(3)))
-			case 24:
-				b.Transform(matrix.Translate(float64(r.IntN(100))/3, -7.25))
-			case 25:
-				b.SetFillColor(color.DeviceGray(float64(r.IntN(11)) / 10))
-			case 26:
-				b.CurveTo(1, 2.5, 3.25, 4, float64(r.IntN(50))/7, 6)
-			case 27:
-				b.CloseAndStroke()
-			case 28:
-				b.FillAndStroke()
-			case 29:
-				b.ClipEvenOdd()
-			case 30:
-				b.SetStrokeColor(color.DeviceRGB{0.1, float64(r.IntN(11)) / 10, 1})
-			case 31:
-				b.Circle(10, 20.5, float64(1+r.IntN(30))/3)
-			case 32:
-				b.FillAndStrokeEvenOdd()
-			case 33:
-				b.TextSecondLine(float64(r.IntN(20)), -14.4)
-			case 34:
-				data := []byte(imgData[r.IntN(len(imgData))])
-				if r.IntN(2) == 0 {
-					data = h.rbytes(20)
-				}
-				b.DrawInlineImageRaw(pdf.Dict{"W": pdf.Integer(1 + r.IntN(4)), "H": pdf.Integer(2), "BPC": pdf.Integer(8)}, data)
+		if len(opts) > 0 {
+			k = opts[r.IntN(len(opts))]
+		}
+	}
+	return k
+}
+
+// checkBuilderStream: a stream the Builder produced without error is, for a fresh State of the
+// Builder's version, a valid operator sequence which is balanced after ClosingOperators
+// (closed already when it comes from Build).
+func (h *harness) checkBuilderStream(ops []content.Operator, v pdf.Version, calls []string, mustBeClosed bool) bool {
+	s := content.NewState(content.Page, nil)
+	s.Version = v
+	for i, op := range ops {
+		if err := s.ApplyOperator(op.Name, op.Args); err != nil {
+			h.nsig["builder-output-invalid"]++
+			if h.nsig["builder-output-invalid"] <= 5 {
+				h.e.Fail("builder-output-invalid", fmt.Sprintf("Builder (version %v) output is rejected by a fresh State of that version at operator %d (%s): %v; calls %v", v, i, op.Name, err, calls),
+					map[string]any{"calls": calls, "version": v.String(), "ops": opsRaw(ops)})
 			}
-		}()
+			return false
+		}
+	}
+	if mustBeClosed {
+		if err := s.CanClose(); err != nil {
+			h.e.Fail("unbalanced", fmt.Sprintf("Build (version %v) returned a stream that is not closed: %v; calls %v", v, err, calls), map[string]any{"calls": calls})
+			return false
+		}
+		return true
+	}
+	for _, c := range s.ClosingOperators() {
+		if err := s.ApplyOperator(c, nil); err != nil {
+			h.e.Fail("unbalanced", fmt.Sprintf("closing operator %s is rejected after Builder calls %v (version %v): %v", c, calls, v, err), map[string]any{"calls": calls})
+			return false
+		}
+	}
+	if err := s.CanClose(); err != nil {
+		h.e.Fail("unbalanced", fmt.Sprintf("Builder calls %v (version %v): not closable after ClosingOperators: %v", calls, v, err), map[string]any{"calls": calls})
+		return false
+	}
+	return true
+}
+
+// builderCase: a random sequence of Builder calls, with Reset / Build / MustBuild in the
+// middle and further use of the Builder afterwards.
+func (h *harness) builderCase() {
+	r := h.e.Rand
+	v := []pdf.Version{pdf.V1_3, pdf.V1_7, pdf.V1_7, pdf.V2_0, pdf.V2_0}[r.IntN(5)]
+	b := builder.New(content.Page, nil, v)
+	n := 1 + r.IntN(16)
+	var calls []string
+	probing := r.IntN(6) == 0
+	for i := 0; i < n && b.Err == nil; i++ {
+		if i > 0 && r.IntN(7) == 0 {
+			// Reset, Build or MustBuild in the middle; the Builder is used on afterwards
+			switch kind := r.IntN(3); kind {
+			case 0:
+				calls = append(calls, "Reset")
+				b.Reset()
+			default:
+				name := "Build"
+				if kind == 2 {
+					name = "MustBuild"
+				}
+				var inner []string
+				fn := func(bb *builder.Builder) error {
+					for j := r.IntN(8); j > 0 && bb.Err == nil; j-- {
+						k := h.pickCall(bb, v, true)
+						inner = append(inner, strconv.Itoa(k))
+						h.bcall(bb, k)
+					}
+					h.closeAll(bb)
+					return nil
+				}
+				var built *content.Operators
+				func() {
+					defer func() { recover() }() // MustBuild panics on an error
+					if kind == 2 {
+						built = b.MustBuild(fn)
+					} else {
+						built = b.Build(fn)
+					}
+				}()
+				calls = append(calls, name+"("+strings.Join(inner, ",")+")")
+				if built != nil && b.Err == nil {
+					h.checkBuilderStream(built.Ops, v, calls, true)
+				}
+			}
+			probing = true
+			continue
+		}
+		k := h.pickCall(b, v, probing)
+		calls = append(calls, strconv.Itoa(k))
+		h.bcall(b, k)
 	}
 	h.e.Count(true, "builder"+strings.Join(calls, ","), "builder")
 	if b.Err != nil {
@@ -1324,29 +1433,95 @@ func (h *harness) builderCase() {
 	}
 	// the stream re-reads as the operators written
 	h.operators(ops, "builder-output")
-	// it is a valid sequence for a fresh State ...
-	s := content.NewState(content.Page, nil)
-	s.Version = v
+	// it is a valid sequence for a fresh State of the Builder's version, balanced after ClosingOperators
+	if !h.checkBuilderStream(ops, v, calls, false) {
+		return
+	}
 	var names []content.OpName
-	for i, op := range ops {
+	for _, op := range ops {
 		names = append(names, op.Name)
-		if err := s.ApplyOperator(op.Name, op.Args); err != nil {
-			h.e.Fail("builder-output-invalid", fmt.Sprintf("Builder output is rejected on re-reading at operator %d (%s): %v", i, op.Name, err),
-				map[string]any{"calls": calls, "ops": opsRaw(ops)})
-			return
-		}
-	}
-	// ... and balanced after ClosingOperators
-	for _, c := range b.State.ClosingOperators() {
-		if err := b.State.ApplyOperator(c, nil); err != nil {
-			h.e.Fail("unbalanced", fmt.Sprintf("closing operator %s is rejected after Builder calls %v: %v", c, calls, err), map[string]any{"calls": calls})
-			return
-		}
-	}
-	if err := b.State.CanClose(); err != nil {
-		h.e.Fail("unbalanced", fmt.Sprintf("Builder calls %v: not closable after ClosingOperators: %v", calls, err), map[string]any{"calls": calls})
 	}
 	h.nesting(names, v < pdf.V2_0, "builder-names")
+}
+
+// builderScenarios: for every version class and every way of resetting the Builder, the rules
+// of the version are still enforced afterwards: q/Q inside a text object and q nesting deeper
+// than 28 are errors before PDF 2.0, and whatever the Builder accepts is valid for a fresh State.
+func (h *harness) builderScenarios() {
+	simple := func(bb *builder.Builder) error {
+		bb.MoveTo(1, 2)
+		bb.LineTo(3, 4)
+		bb.Stroke()
+		return nil
+	}
+	for _, v := range []pdf.Version{pdf.V1_0, pdf.V1_3, pdf.V1_4, pdf.V1_7, pdf.V2_0} {
+		for reset := 0; reset < 5; reset++ {
+			for probe := 0; probe < 7; probe++ {
+				b := builder.New(content.Page, nil, v)
+				calls := []string{fmt.Sprintf("reset%d", reset), fmt.Sprintf("probe%d", probe)}
+				b.PushGraphicsState()
+				b.TextBegin()
+				b.TextEnd()
+				func() {
+					defer func() { recover() }()
+					switch reset {
+					case 1:
+						b.Reset()
+					case 2:
+						b.Build(simple)
+					case 3:
+						b.MustBuild(simple)
+					case 4:
+						b.PopGraphicsState()
+						b.Harvest()
+						b.Reset()
+						b.Build(simple)
+					}
+				}()
+				rep := func(n int, f func()) {
+					for i := 0; i < n; i++ {
+						f()
+					}
+				}
+				switch probe {
+				case 0: // q inside a text object
+					b.TextBegin()
+					b.PushGraphicsState()
+					b.PopGraphicsState()
+					b.TextEnd()
+				case 1: // 29 nested q
+					rep(29, b.PushGraphicsState)
+					rep(29, b.PopGraphicsState)
+				case 2: // 28 nested q (allowed when nothing else is open)
+					rep(27, b.PushGraphicsState)
+					rep(27, b.PopGraphicsState)
+				case 3: // Q inside a text object
+					b.PushGraphicsState()
+					b.TextBegin()
+					b.PopGraphicsState()
+					b.TextEnd()
+				case 4: // nested text objects
+					b.TextBegin()
+					b.TextBegin()
+					b.TextEnd()
+				case 5: // left open: closed by ClosingOperators
+					b.PushGraphicsState()
+					b.MarkedContentStart(&graphics.MarkedContent{Tag: "P"})
+					b.TextBegin()
+				default:
+					b.PushGraphicsState()
+					simple(b)
+					b.PopGraphicsState()
+				}
+				h.e.Count(true, fmt.Sprintf("bscen%v/%d/%d", v, reset, probe), "builder-scenario")
+				if b.Err != nil {
+					h.e.Dist["builder-scenario:rejected"]++
+					continue
+				}
+				h.checkBuilderStream(append([]content.Operator(nil), b.Stream...), v, calls, false)
+			}
+		}
+	}
 }
 
 // ---------------------------------------------------------------------------
@@ -1518,6 +1693,7 @@ func phase1() {
 
 	// 7. Builder call sequences
 	h.pfx = "b"
+	h.builderScenarios()
 	for i := 0; i < e.Pick(3000, 100000); i++ {
 		h.builderCase()
 	}
